@@ -164,6 +164,25 @@ class C02(Prop):
             for c in cs[: cap if tier == "quick" else cap * 4]:
                 c.meta = {"kind": "multicast-" + name}
                 out.append(c)
+        # the OUTER stream of merge_all hands out an inner synchronously while it is being subscribed and stays live
+        # (harness field `outer0 k`: subject.start_with([inner k])): whatever the operator keeps of its subscriptions,
+        # unsubscribe() must still reach the outer source — an inner that emits at subscription, handed out afterwards,
+        # delivers nothing (seed C02-11 truncated the teardown list to its first entry, assuming that one is the outer's)
+        from .c05 import mk_case as mk5
+        for limit in ("inf", 1, 2):
+            for first in (["cold", ["10", "11"], "c"], ["cold", [], "c"], ["cold", ["10"]]):
+                for fl in ("local", "threads"):
+                    inners = [first, ["hot", "1"], ["cold", ["20"], "c"], ["cold", ["30", "31"]]]
+                    for mid in ([["outer", ["o", "1"]], ["inner", "1", ["n", "5"]]],
+                                [["outer", ["o", "1"]], ["inner", "1", ["n", "5"]], ["inner", "1", "c"], ["outer", ["o", "1"]]],
+                                [["outer", ["o", "2"]], ["outer", ["o", "1"]]],
+                                []):
+                        evs = mid + [["unsub"], ["outer", ["o", "2"]], ["outer", ["o", "3"]], ["inner", "1", ["n", "6"]],
+                                     ["outer", "c"]]
+                        c = mk5(limit, inners, evs, fl, kind="outer0")
+                        c.fields = [("outer0", ["0"])] + c.fields
+                        c.meta = {"kind": "multicast-outer0"}
+                        out.append(c)
         # merge_all with a finite limit: a queued inner that completes INSIDE its own subscription is started from a
         # finishing inner's `complete`, a long-lived inner waits behind it (and is started re-entrantly); then the
         # merged stream is unsubscribed and the long-lived inner emits again (seed C02-7: its subscription had been
